@@ -7,7 +7,7 @@ from typing import Dict, List, Optional, Set, Tuple
 from sa.canon import canon
 from sa.peval import peval
 from sa.report import Ctx
-from sa.sym import FALSE, NONE, NOT, Summary, bind_args, conjuncts, show, subst, walk
+from sa.sym import callkw, FALSE, NONE, NOT, Summary, bind_args, conjuncts, show, subst, walk
 
 DET = "soundevent.evaluation.tasks.sound_event_detection"
 COMMON = "soundevent.evaluation.tasks.common"
@@ -135,7 +135,7 @@ class C08:
 
     def component_domains(self, s: Summary, src, k: int, depth) -> Set[tuple]:
         if self.is_matcher(src):
-            kw = dict(src[3])
+            kw = callkw(src)
             args = list(src[2])
             S = kw.get("source", args[0] if args else None)
             T = kw.get("target", args[1] if len(args) > 1 else None)
@@ -379,7 +379,7 @@ class C08:
         """kwargs of the Match(...) appended; follows evaluate_sound_event(...)[2]."""
         Match = ("global", "soundevent.data.matches:Match", "class")
         if t[0] == "call" and t[1] == Match:
-            return dict(t[3]), False
+            return callkw(t), False
         if t[0] == "sub" and t[2][0] == "const" and t[1][0] == "call" and t[1][1] == ("global", f"{DET}:evaluate_sound_event", "func"):
             cs = self.ctx.summ.of_func(DET, "evaluate_sound_event")
             b, extra, _, _ = bind_args(t[1], cs.params)
@@ -441,7 +441,7 @@ class C08:
             return None
 
         if self.is_matcher(src):
-            kw = dict(src[3])
+            kw = callkw(src)
             args = list(src[2])
             seq = kw.get("source" if k == 0 else "target", args[k] if len(args) > k else None)
             if seq is None:
@@ -459,7 +459,7 @@ class C08:
             return ["none"]
         if self.is_matcher(it) and not conds:
             # component is (table[s] if s is not None else None) or s itself
-            kw = dict(it[3])
+            kw = callkw(it)
             args = list(it[2])
             seq = kw.get("source" if k == 0 else "target", args[k] if len(args) > k else None)
             doms = self.domains(s, comp)
@@ -493,7 +493,7 @@ class C08:
             ctx.undec("R08.5", site, "does not return a (true class, scores, match) triple")
             return
         tc, ps, mt = s.returns[0].term[1]
-        kw = dict(mt[3]) if mt[0] == "call" else {}
+        kw = callkw(mt) if mt[0] == "call" else {}
         if nc(kw.get("score", NONE)) == want:
             ctx.ok("R08.5", site, "score = classification_score(truth from annotation.tags, scores from prediction.tags)")
         else:
@@ -520,7 +520,7 @@ class C08:
         ce = [x for r in s_clip.returns for x in walk(r.term) if x[0] == "call" and x[1] == CE]
         lst = apps[0].term[1][1] if apps else None
         if len(ce) == 1 and lst is not None:
-            kw = dict(ce[0][3])
+            kw = callkw(ce[0])
             sc = kw.get("score")
             good = (sc is not None and sc[0] == "call" and sc[1] == mean and len(sc[2]) == 1 and sc[2][0][0] == "comp"
                     and len(sc[2][0][3]) == 1 and sc[2][0][3][0][1] == lst and not sc[2][0][3][0][2]
@@ -541,7 +541,7 @@ class C08:
         ev = [x for r in s.returns for x in walk(r.term) if x[0] == "call" and x[1][0] == "global" and x[1][1].endswith(":Evaluation")]
         site = f"{self.file}:{s.node.lineno} sound_event_detection"
         if len(ev) == 1:
-            kw = dict(ev[0][3])
+            kw = callkw(ev[0])
             sc, clips = kw.get("score"), kw.get("clip_evaluations")
             good = (sc is not None and sc[0] == "call" and sc[1] == mean and len(sc[2]) == 1 and sc[2][0][0] == "comp"
                     and sc[2][0][3][0][1] == clips and not sc[2][0][3][0][2] and sc[2][0][2] == ("attr", ("elem", sc[2][0][3][0][0]), "score"))
